@@ -57,6 +57,8 @@ func main() {
 		os.Exit(runDump(pos[0], *oblFilter, *repo, *verif))
 	case "list":
 		os.Exit(runList(*repo, *verif))
+	case "renames":
+		os.Exit(runRenames(*repo, *verif))
 	case "ssa":
 		P, err := loadProgram(*repo, *verif)
 		if err != nil {
